@@ -94,7 +94,7 @@ class SymArray(_np.ndarray):
         return r
 
     def astype(self, dtype, *a, **k):
-        if has_sym(self) and dtype in (float, "float", "float64", _np.float64):
+        if has_sym(self) and dtype in (float, sfloat, "float", "float64", _np.float64):
             return self.copy()  # proxies stand for floats already
         return _np.ndarray.astype(self, dtype, *a, **k)
 
@@ -752,11 +752,16 @@ class ShimScipy:
         return getattr(self._real, k)
 
 
-def sfloat(x):
-    """float() stand-in: identity on proxies (TimeSeries.insert calls float(v); on a python float it is the identity too)"""
-    if is_sym(x):
-        return x
-    return float(x)
+class sfloat(float):
+    """float stand-in bound to the name `float` in the analysed modules: identity on proxies (e.g. TimeSeries.insert calls
+    float(v)), the builtin on everything else; still a type, so `dtype=float` and isinstance checks keep working"""
+
+    def __new__(cls, x=0.0):
+        if is_sym(x):
+            return x
+        if isinstance(x, _np.ndarray) and x.dtype == object and x.size == 1 and is_sym(x.reshape(-1)[0]):
+            return x.reshape(-1)[0]
+        return float(x)
 
 
 def patches_for(*modules, join_nonfinite_default=False):
@@ -777,7 +782,7 @@ def patches_for(*modules, join_nonfinite_default=False):
             out.append((d, "exp", snp.exp))
         if "array" in d and d["array"] is _np.array:
             out.append((d, "array", snp.array))
-        if m.__name__ == "atomica.utils":
+        if m.__name__ in ("atomica.utils", "atomica.model"):
             out.append((d, "float", sfloat))
     return out
 
